@@ -2,6 +2,7 @@ package runner
 
 import (
 	"errors"
+	"io"
 	"os"
 
 	"github.com/gontainer/gontainer/internal/pkg/input"
@@ -24,6 +25,13 @@ type VfEnvT struct {
 	Log       []string // environment calls in order
 	Touched   []string // paths created, truncated, removed or renamed by anything but a successful WriteFile
 	Cwd       string   // the working directory of the virtual environment
+	Empty     map[string]bool // files that hold no YAML document at all (empty or comments only)
+	Opened    []VfOpenFile    // handles given out by os.Open, with the file each stands for
+}
+
+type VfOpenFile struct {
+	F    *os.File
+	Name string
 }
 
 var VfEnv VfEnvT
@@ -81,6 +89,9 @@ func vfStub_yaml_Unmarshal(in []byte, out interface{}) error {
 	if VfEnv.YamlErr[name] {
 		return errors.New("yaml: line 1: did not find expected key")
 	}
+	if VfEnv.Empty[name] {
+		return nil // no document: nothing is decoded, no error
+	}
 	src := VfEnv.Inputs[name]
 	dst := out.(*input.Input)
 	if src.Version != nil {
@@ -135,6 +146,52 @@ func vfStub_yaml_Unmarshal(in []byte, out interface{}) error {
 	}
 	return nil
 }
+
+// os.Open + yaml.NewDecoder(f).Decode: the streaming way of reading the same
+// file. Decode returns io.EOF when the stream holds no (further) document,
+// which is where it differs from Unmarshal.
+func vfStub_os_Open(name string) (*os.File, error) {
+	VfEnv.Log = append(VfEnv.Log, "read:"+name)
+	name = VfCanon(name)
+	if VfEnv.ReadErr[name] {
+		return nil, errors.New("open " + name + ": permission denied")
+	}
+	f := vfScratchFile()
+	VfEnv.Opened = append(VfEnv.Opened, VfOpenFile{F: f, Name: name})
+	return f, nil
+}
+
+type VfDecoder struct {
+	name string
+	done bool
+}
+
+func vfStub_yaml_NewDecoder(r io.Reader) *VfDecoder {
+	d := &VfDecoder{done: true}
+	if f, ok := r.(*os.File); ok {
+		for _, o := range VfEnv.Opened {
+			if o.F == f {
+				d.name, d.done = o.Name, false
+			}
+		}
+	}
+	return d
+}
+
+func (d *VfDecoder) Decode(out interface{}) error { return vfStubM_yaml_Decoder_Decode(d, out) }
+func (d *VfDecoder) KnownFields(bool)             {}
+
+// vfStubM_<pkg>_<Type>_<Method>: what the engine runs for a method of a
+// package it does not execute (the receiver is what the constructor stub made).
+func vfStubM_yaml_Decoder_Decode(d *VfDecoder, out interface{}) error {
+	if d.done || VfEnv.Empty[d.name] {
+		return io.EOF
+	}
+	d.done = true
+	return vfStub_yaml_Unmarshal([]byte(d.name), out)
+}
+
+func vfStubM_yaml_Decoder_KnownFields(d *VfDecoder, on bool) {}
 
 func vfStub_os_WriteFile(name string, data []byte, perm uint32) error {
 	VfEnv.Log = append(VfEnv.Log, "write:"+name)
